@@ -621,6 +621,7 @@ func TestC11Stress(t *testing.T) {
 			wg.Add(1)
 			go func(g int) {
 				defer wg.Done()
+				buf := make([]byte, 0, 128)
 				for i := 0; i < K; i++ {
 					typ, seq := auparse.AuditMessageType([]uint16{1300, 1302, eoe, 1327, 1307}[(i+g)%5]), uint32(1000+i/3+g)
 					if g%2 == 1 {
@@ -629,8 +630,17 @@ func TestC11Stress(t *testing.T) {
 						if typ != auparse.AUDIT_EOE {
 							allRaw[g] = append(allRaw[g], raw)
 						}
-						if err := r.Push(typ, []byte(raw)); err != nil {
+						// one read buffer per goroutine, used again for the next record as a receive loop does; every
+						// other record comes with the newline of its line (the parser trims it). Push copies.
+						buf = append(buf[:0], raw...)
+						if i%2 == 1 {
+							buf = append(buf, '\n')
+						}
+						if err := r.Push(typ, buf); err != nil {
 							pushErr[g] = err
+						}
+						for j := range buf {
+							buf[j] = '#'
 						}
 					} else {
 						m := &auparse.AuditMessage{RecordType: typ, Sequence: seq}
